@@ -525,6 +525,8 @@ def astype(a, dtype, *args, **kw):
         return a.copy()
     if issym(a):
         return a
+    if isinstance(a, (bool, int, float, complex)):       # a cell of an object array where numpy would have had a numpy scalar
+        return np.asarray(a).astype(dtype, *args, **kw)[()]
     r = a.astype(dtype, *args, **kw)
     return to_obj(r)
 
